@@ -423,7 +423,10 @@ def sh_stream_of(path):
     return last[:-5] if last.endswith(b".m3u8") else None
 
 
-def servehls_line(flags, key, ovr, sub, scens):
+SH_TIMEOUT = 600000      # hls.sub_session_timeout_ms of the histories that are not about expiry
+
+
+def servehls_line(flags, key, ovr, sub, scens, timeout=SH_TIMEOUT):
     md5s, pqs, pqalls = [], {}, {}
     for sc in scens:
         for o in sc.split(","):
@@ -437,7 +440,7 @@ def servehls_line(flags, key, ovr, sub, scens):
                         md5s.append((key + st, md5raw(key + st)))
     pqt = ",".join("%s>%s" % (H(q), t) for q, t in pqs.items()) or "-"
     pqa = ",".join("%s>%s" % (H(q), t) for q, t in pqalls.items()) or "-"
-    return "c14.servehls %d %s %s %d %s %s %s - %s" % (flags, H(key), H(ovr), sub, "|".join(scens), table(md5s), pqt, pqa)
+    return "c14.servehls %d %s %s %d %d %s %s %s - %s" % (flags, H(key), H(ovr), sub, timeout, "|".join(scens), table(md5s), pqt, pqa)
 
 
 def mixed_queries(right):
@@ -482,10 +485,14 @@ def gen_servehls(tier, rng):
                      first + ",B:%s:100," % H(IP_A) + few + "," + sh_get(IP_B, b"/hls/s1.m3u8", b"lal_secret=" + right + b"&session_id=@0"),
                      body]
             yield Case(servehls_line(flags, key, ovr, sub, scens), cls="servehls-mix-f%d-s%d" % (flags, sub))
-    # (b) black-list histories against the wall clock
-    for flags, key, ovr, sub in ((0, b"k", b"", 0), (64, b"key", b"Ovr", 1)) + (((64, b"q191201771", b"", 0),) if tier != "quick" else ()):
-        right = b"lal_secret=" + md5hex(key + b"s1")
-        qs = [b"", right, b"lal_secret=bad"] + ([b"lal_secret=ovr"] if ovr else [])
+    # (b) everything that depends on the clock goes into ONE line (its scenarios run in parallel, each on its own
+    #     ServerManager with its own configuration C:<flags>:<sub>:<timeout>): black-list histories, kick_session
+    #     with requests before / after the handler's sweep, expiry of sub sessions
+    key, ovr = b"key", b"Ovr"
+    right = b"lal_secret=" + md5hex(key + b"s1")
+    timed = []
+    for flags, sub in ((0, 0), (64, 1)) + (((64, 0),) if tier != "quick" else ()):
+        qs = [b"", right, b"lal_secret=bad", b"lal_secret=ovr"]
 
         def allget(ip, i=0):
             out = []
@@ -509,7 +516,23 @@ def gen_servehls(tier, rng):
                       sh_get(IP_A, b"/hls/s1/s1-1-2.ts", b"session_id=@0"), sh_get(IP_A, b"/hls/s1.m3u8", right + b"&session_id=@0")]),
             allget(IP_A, 1),
         ]
-        yield Case(servehls_line(flags, key, ovr, sub, scens), cls="servehls-f%d-s%d" % (flags, sub))
+        if sub:
+            scens += kick_scenarios(right)
+        timed += ["C:%d:%d:%d," % (flags, sub, SH_TIMEOUT) + sc for sc in scens]
+    # expiry of hls sub sessions: timeout 1200 ms, requests 500 ms into a second, sweeps at whole seconds
+    m, t = b"/hls/s1.m3u8", b"/hls/s1-1-2.ts"
+    sid0, sid1 = b"session_id=@0", b"session_id=@1"
+    timed += ["C:0:1:1200," + sc for sc in [
+        # kept alive by a request every second, then idle for two sweeps
+        ",".join([sh_get(IP_A, m, right), "S:1", sh_get(IP_A, m, sid0), "S:1", "L", sh_get(IP_A, t, sid0), "S:2", sh_get(IP_A, m, sid0), sh_get(IP_A, t, sid0), "L", "K:%s" % H(b"@0")]),
+        # never used again: first sweep keeps it (idle 500 ms), second removes it (idle 1500 ms)
+        ",".join([sh_get(IP_A, m), "L", "S:1", "L", "S:1", "L", sh_get(IP_A, m, sid0)]),
+        # two sessions, only one kept alive
+        ",".join([sh_get(IP_A, m), sh_get(IP_B, m), "S:1", sh_get(IP_B, t, sid1), "S:1", "L", sh_get(IP_A, t, sid0), sh_get(IP_B, m, sid1), "S:2", "L", sh_get(IP_B, m, sid1)]),
+        # kicked and expired at the same sweep; a new session afterwards gets a fresh id
+        ",".join([sh_get(IP_A, m), "S:1", "K:%s" % H(b"@0"), sh_get(IP_A, m, sid0), "S:1", sh_get(IP_A, m, sid0), sh_get(IP_A, m), sh_get(IP_A, m, sid1), "L"]),
+    ]]
+    yield Case(servehls_line(64, key, ovr, 1, timed), cls="servehls-timed")
     if tier == "thorough":
         for _ in range(4):
             flags, key, ovr = rng.choice([(0, b"k", b""), (64, b"key", b"Ovr")])
@@ -522,7 +545,9 @@ def gen_servehls(tier, rng):
                 for _ in range(rng.randrange(3, 30)):
                     r = rng.random()
                     ip = rng.choice([IP_A, IP_B])
-                    if r < 0.15:
+                    if r < 0.08 and sub:
+                        ops.append(rng.choice(["K:%s" % H(b"@%d" % rng.randrange(3)), "L"]))
+                    elif r < 0.15:
                         ops.append("B:%s:%d" % (H(ip), rng.choice([-1, 0, 1, 2, 9])))
                     elif r < 0.9 or slept >= 3:
                         ops.append(sh_get(ip, rng.choice(list(SH_GOOD) + SH_OTHER), rng.choice(qs)))
@@ -533,9 +558,34 @@ def gen_servehls(tier, rng):
             yield Case(servehls_line(flags, key, ovr, sub, scens), cls="servehls-random")
 
 
-def servehls_check(flags, key, ovr, sub, sc, out):
-    """the property on one serveHls history"""
-    now, until, sessions, made = 0, {}, set(), 0
+def kick_scenarios(right):
+    """kick_session on hls sub sessions: requests placed between the kick and the handler's next sweep, and after it"""
+    m, t, m2 = b"/hls/s1.m3u8", b"/hls/s1-1-2.ts", b"/hls/s1/playlist.m3u8"
+    sid0, sid1 = right + b"&session_id=@0", right + b"&session_id=@1"
+    k0, k1 = "K:%s" % H(b"@0"), "K:%s" % H(b"@1")
+    return [
+        # the player keeps polling between the kick and the sweep: the kick must still hold after the sweep
+        ",".join([sh_get(IP_A, m, right), sh_get(IP_A, m, sid0), k0, sh_get(IP_A, m, sid0), sh_get(IP_A, t, b"session_id=@0"), "L",
+                  "S:1", sh_get(IP_A, m, sid0), sh_get(IP_A, t, b"session_id=@0"), sh_get(IP_A, m2, sid0), "L", k0, "S:1", sh_get(IP_A, m, sid0)]),
+        # no request in the window
+        ",".join([sh_get(IP_A, m, right), k0, "S:1", sh_get(IP_A, m, sid0), "L"]),
+        # unknown id, double kick
+        ",".join(["K:%s" % H(b"@5"), "K:%s" % H(b"x"), sh_get(IP_A, m, right), k0, k0, "L", "S:1", "L", k0]),
+        # two sessions, one kicked; the other one keeps working; the kicked player starts over and gets a new id
+        ",".join([sh_get(IP_A, m, right), sh_get(IP_B, m2, right), k0, sh_get(IP_A, m, sid0), sh_get(IP_B, m, sid1), "S:1",
+                  sh_get(IP_A, m, sid0), sh_get(IP_B, m, sid1), sh_get(IP_B, t, b"session_id=@1"), "L", sh_get(IP_A, m, right), sh_get(IP_A, m, right + b"&session_id=@2"), "L"]),
+        # kicked, then many window requests of both kinds, two sweeps later still gone
+        ",".join([sh_get(IP_A, m, right), k0] + [sh_get(IP_A, p, sid0) for p in (m, t, m2, t, m)] + ["S:2", sh_get(IP_A, m, sid0), sh_get(IP_A, t, sid0), "L"]),
+        # kick of a session whose address is black-listed meanwhile
+        ",".join([sh_get(IP_A, m, right), "B:%s:1" % H(IP_A), sh_get(IP_A, m, sid0), k0, "L", "S:2", sh_get(IP_A, m, sid0), "L"]),
+    ]
+
+
+def servehls_check(flags, key, ovr, sub, sc, out, timeout=SH_TIMEOUT):
+    """the property on one serveHls history.  Requests run 500 ms into a second; the handler sweeps its sessions at
+    whole seconds: a session is dropped by a sweep when it was kicked or idle for longer than the timeout, and a
+    dropped session's id gets no content ever after, whatever arrived between the kick and the sweep"""
+    now, until, sessions, made = 0, {}, {}, 0          # sessions: id -> [last request (ms), kicked]
     res = out.split(",") if out != "-" else []
     k = 0
     for o in sc.split(","):
@@ -543,7 +593,28 @@ def servehls_check(flags, key, ovr, sub, sc, out):
         if f[0] == "B":
             until[tok_bytes(f[1])] = now + int(f[2])
         elif f[0] == "S":
-            now += int(f[1])
+            for _ in range(int(f[1])):
+                now += 1
+                sweep = now * 1000
+                for sid in [x for x, (last, kicked) in sessions.items() if kicked or last + timeout < sweep]:
+                    del sessions[sid]
+        elif f[0] == "K":
+            if k >= len(res):
+                return "missing answer"
+            r = res[k]
+            k += 1
+            sid = tok_bytes(f[1])
+            if r != ("K1" if sid in sessions else "K0"):
+                return "kick_session of %r answers %s" % (sid, r)
+            if sid in sessions:
+                sessions[sid][1] = True
+        elif f[0] == "L":
+            if k >= len(res):
+                return "missing answer"
+            r = res[k]
+            k += 1
+            if r != "L%d" % len(sessions):
+                return "the stat api lists %s hls sub sessions, %d are registered (kicked / expired ones must be gone after the sweep)" % (r[1:], len(sessions))
         else:
             if k >= len(res):
                 return "missing answer"
@@ -563,7 +634,7 @@ def servehls_check(flags, key, ovr, sub, sc, out):
                     return "redirect to a session although the sub-session feature is off: %r" % path
                 if r != "302r:" + H(b"@%d" % made):
                     return "unexpected redirect answer " + r
-                sessions.add(b"@%d" % made)
+                sessions[b"@%d" % made] = [now * 1000 + 500, False]
                 made += 1
             st = sh_stream_of(path)
             auth_ok = True
@@ -576,16 +647,20 @@ def servehls_check(flags, key, ovr, sub, sc, out):
             if blocked:
                 if content or redirect:
                     return "black-listed address %r was served %r %d s before its entry expires" % (ip, path, until[ip] - now)
-                sessions.discard(sid)
+                sessions.pop(sid, None)
                 continue
             if content and not tok_bytes(r[4:]).startswith(b"/T1/T2/outer/root/"):
                 return "file %r outside the root served for %r" % (tok_bytes(r[4:]), path)
             # availability: authorised, not black-listed
             is_ts = path.endswith(b".ts")
-            if sub and sid and (is_ts or st is not None) and sid not in sessions:
-                if content:
-                    return "content served for the unknown session id %r" % sid
-                continue
+            if sub and sid and (is_ts or st is not None):
+                if sid not in sessions:
+                    if content:
+                        return "content served for session id %r, which is not registered (never issued, kicked or expired, and swept)" % sid
+                    continue
+                sessions[sid][0] = now * 1000 + 500
+                if sessions[sid][1]:
+                    continue        # kicked, not swept yet: the property allows serving or refusing it in this window
             if sub and st is not None and not sid:
                 if not redirect:
                     return "authorised playlist request %r?%r is not redirected to a new session: %s" % (path, q, r)
@@ -995,12 +1070,16 @@ def oracle(c, out):
             return (o == ["0x0", "1"], "callback %d: an authorised session is not admitted / attached: %s" % (cb, out))
         return (o[0] != "0x0" and o[1] == "0", "callback %d: a session that must be rejected is admitted or attached to its group: %s" % (cb, out))
     if op == "c14.servehls":
-        flags, key, ovr, sub = int(f[1]), tok_bytes(f[2]), tok_bytes(f[3]), int(f[4])
-        scens, outs = f[5].split("|"), out.split("|")
+        flags, key, ovr, sub, timeout = int(f[1]), tok_bytes(f[2]), tok_bytes(f[3]), int(f[4]), int(f[5])
+        scens, outs = f[6].split("|"), out.split("|")
         if len(scens) != len(outs):
             return (False, "unexpected output " + out[:200])
         for sc, o in zip(scens, outs):
-            why = servehls_check(flags, key, ovr, sub, sc, o)
+            fl, sb, tm = flags, sub, timeout
+            if sc.startswith("C:"):
+                c, sc = sc.split(",", 1)
+                fl, sb, tm = [int(x) for x in c.split(":")[1:]]
+            why = servehls_check(fl, key, ovr, sb, sc, o, tm)
             if why:
                 return (False, "serveHls: " + why)
         return (True, "")
